@@ -20,8 +20,9 @@ fn first_registered(w: &World, name: &str, excluding: Option<usize>) -> Option<u
 }
 
 /// C01 cascade arm: `order` = files analysed, in registration order; `def_files` = which of them define `f`
-/// (a file listed twice defines it twice). Symbolic: every definition line, and — when M defines f and a
-/// conftest C1/C0 is present — whether that conftest imports it and by which statement form.
+/// (a file listed twice defines it twice); the LAST file of `order` is the requesting one. Symbolic: every
+/// definition line; when M defines f and a conftest C1/C0 is present, whether that conftest imports it and by
+/// which statement form; when V defines f, whether V is itself an entry-point plugin (is_plugin AND is_third_party).
 pub fn cascade(order: &[u8], def_files: &[u8]) {
     let mut w = World::new(order);
     for &f in def_files { let l = any_line(); w.def(f, "f", l); }
@@ -30,12 +31,16 @@ pub fn cascade(order: &[u8], def_files: &[u8]) {
     assume(k1 < 3 && k0 < 3);
     w.imp_c1 = Imp { on: i1 && m_has && w.c1_present, kind: k1 };
     w.imp_c0 = Imp { on: i0 && m_has && w.c0_present, kind: k0 };
+    let vp: bool = any();
+    w.v_is_plugin = vp && def_files.contains(&V);
     assume_distinct_lines(&w);
-    note!("order={:?} defs={:?} imp_c1={}({}) imp_c0={}({})", order,
-          w.defs.iter().map(|d| (d.file, d.line)).collect::<Vec<_>>(), w.imp_c1.on, k1, w.imp_c0.on, k0);
+    // the requesting file is the last one analysed
+    let from = order[order.len() - 1];
+    note!("order={:?} defs={:?} imp_c1={}({}) imp_c0={}({}) v_is_plugin={} from={}", order,
+          w.defs.iter().map(|d| (d.file, d.line)).collect::<Vec<_>>(), w.imp_c1.on, k1, w.imp_c0.on, k0, w.v_is_plugin, path(from));
     let db = build(&w, DEFS_ONLY);
-    let want = spec::resolve(&w, U, "f", None);
-    let got = db.find_closest_definition(Path::new(path(U)), "f");
+    let want = spec::resolve(&w, from, "f", None);
+    let got = db.find_closest_definition(Path::new(path(from)), "f");
     let got_line = got.as_ref().map(|d| d.line);
     let want_line = want.map(|i| w.defs[i].line);
     note!("want={:?} got={:?}", want_line, got.as_ref().map(|d| (d.file_path.clone(), d.line)));
@@ -104,6 +109,29 @@ cascade_arm!(c01_near_import_over_root_def, [C0, M, C1, U], [C0, M]);
 /// U and C1 define f, C1 registered first.
 cascade_arm!(c01_same_over_near, [C1, U], [C1, U]);
 
+/// @harness id=c01_three_levels_root_leaf_mid props=C01,C08 unwind=20 mem=8 cap=900
+/// three conftests on one ancestor chain (C0, C1, C2) all define f, registered root, leaf, mid; requested
+/// from the leaf directory: the leaf conftest wins.
+cascade_arm!(c01_three_levels_root_leaf_mid, [C0, C2, C1, U3], [C0, C2, C1]);
+/// @harness id=c01_three_levels_mid_root_leaf props=C01,C08 unwind=20 mem=8 cap=900
+/// same three conftests registered mid, root, leaf.
+cascade_arm!(c01_three_levels_mid_root_leaf, [C1, C0, C2, U3], [C1, C0, C2]);
+/// @harness id=c01_three_levels_leaf_root_mid props=C01,C08 tier=thorough unwind=20 mem=8 cap=900
+/// registered leaf, root, mid.
+cascade_arm!(c01_three_levels_leaf_root_mid, [C2, C0, C1, U3], [C2, C0, C1]);
+/// @harness id=c01_three_levels_root_mid_leaf props=C01,C08 tier=thorough unwind=20 mem=8 cap=900
+/// registered root, mid, leaf (the natural top-down order).
+cascade_arm!(c01_three_levels_root_mid_leaf, [C0, C1, C2, U3], [C0, C1, C2]);
+/// @harness id=c01_three_levels_mid_leaf_root props=C01,C08 tier=thorough unwind=20 mem=8 cap=900
+/// registered mid, leaf, root.
+cascade_arm!(c01_three_levels_mid_leaf_root, [C1, C2, C0, U3], [C1, C2, C0]);
+/// @harness id=c01_three_levels_leaf_mid_root props=C01,C08 tier=thorough unwind=20 mem=8 cap=900
+/// registered leaf, mid, root.
+cascade_arm!(c01_three_levels_leaf_mid_root, [C2, C1, C0, U3], [C2, C1, C0]);
+/// @harness id=c01_two_of_three_levels props=C01 unwind=20 mem=8 cap=900
+/// only the root and the mid conftest define f (leaf conftest exists but does not), requested from the leaf directory.
+cascade_arm!(c01_two_of_three_levels, [C0, C2, C1, U3], [C0, C1]);
+
 // ---------------------------------------------------------------------------------------------
 // C01(b): usage kinds and cursor columns — find_fixture_definition(file, line, col) on generated text.
 
@@ -125,7 +153,7 @@ fn usage_world() -> World {
 /// end and beyond) — each column is its own call site because a symbolic column makes the extracted word a
 /// symbolic-length string, which CBMC could not finish (see DESIGN §0). Inside the recorded token =>
 /// C0's definition, outside => None.
-pub fn usage_cols(line1: usize, s: usize, e: usize, cols: &[u32]) {
+pub fn usage_cols(line1: usize, s: usize, e: usize, cols: &[u32; 3]) {
     let w = usage_world();
     let db = build(&w, WITH_USAGES);
     let k: u8 = any();
@@ -142,32 +170,67 @@ pub fn usage_cols(line1: usize, s: usize, e: usize, cols: &[u32]) {
         check!("c01.cols.name_outside", inside || nm.is_none());
         std::mem::forget(got); std::mem::forget(nm);
     }}; }
-    match k { 0 => at!(0), 1 => at!(1), 2 => at!(2), 3 => at!(3), 4 => at!(4), 5 => at!(5), 6 => at!(6), 7 => at!(7), _ => at!(8) }
+    match k { 0 => at!(0), 1 => at!(1), _ => at!(2) }
     reach!("c01.cols.end");
     std::mem::forget(db); std::mem::forget(w);
 }
 macro_rules! usage_arm {
-    ($id:ident, $line:expr, $s:expr) => {
+    ($id:ident, $line:expr, $s:expr, $cols:expr) => {
         #[cfg_attr(kani, kani::proof)]
         #[cfg_attr(kani, kani::stub(std::path::Path::exists, crate::stubs::path_exists_false))]
         #[cfg_attr(kani, kani::stub(crate::fixtures::FixtureDatabase::is_fixture_imported_in_file, crate::world::stub_is_imported))]
         #[cfg_attr(kani, kani::stub(core::unicode::unicode_data::alphabetic::lookup, crate::stubs::uni_alphabetic))]
         #[cfg_attr(kani, kani::stub(core::unicode::unicode_data::n::lookup, crate::stubs::uni_numeric))]
-        pub fn $id() { let s: usize = $s; usage_cols($line, s, s + 3, &[0, (s - 2) as u32, (s - 1) as u32, s as u32, (s + 1) as u32, (s + 2) as u32, (s + 3) as u32, (s + 4) as u32, 200]) }
+        #[cfg_attr(kani, kani::stub(core::slice::memchr::memchr, crate::stubs::memchr_bytewise))]
+        pub fn $id() { let s: usize = $s; let d: [i64; 3] = $cols; usage_cols($line, s, s + 3, &[(s as i64 + d[0]) as u32, (s as i64 + d[1]) as u32, (s as i64 + d[2]) as u32]) }
     };
 }
-/// @harness id=c01_use_pytestmark props=C01 unwind=60 mem=8 cap=1200 gates=worlds
-/// `pytestmark = pytest.mark.usefixtures("fx1")` (line 2): 9 cursor columns around and inside the string content.
-usage_arm!(c01_use_pytestmark, 2, PYTESTMARK_COL);
-/// @harness id=c01_use_fixture_param props=C01 unwind=60 mem=8 cap=1200 gates=worlds
-/// `def g(fx1): return 1` (line 4): fixture parameter.
-usage_arm!(c01_use_fixture_param, 4, 6);
-/// @harness id=c01_use_usefixtures props=C01 unwind=60 mem=8 cap=1200 gates=worlds
-/// `@pytest.mark.usefixtures("fx1")` (line 6).
-usage_arm!(c01_use_usefixtures, 6, USEFIX_COL);
-/// @harness id=c01_use_indirect props=C01 unwind=60 mem=8 cap=1200 gates=worlds
-/// `@pytest.mark.parametrize("fx1", [1], indirect=True)` (line 7).
-usage_arm!(c01_use_indirect, 7, USEFIX_COL);
-/// @harness id=c01_use_test_param props=C01 unwind=60 mem=8 cap=1200 gates=worlds
-/// `def test_x(fx1): pass` (line 8): test parameter.
-usage_arm!(c01_use_test_param, 8, 11);
+/// @harness id=c01_use_pytestmark props=C01 unwind=60 mem=8 cap=900 gates=worlds
+/// `pytestmark = pytest.mark.usefixtures("fx1")` (line 2): cursor one column before the token, inside it, and one past its end (symbolic selector, 3 call sites).
+usage_arm!(c01_use_pytestmark, 2, PYTESTMARK_COL, [-1, 1, 3]);
+/// @harness id=c01_use_pytestmark_edges props=C01 tier=thorough unwind=60 mem=10 cap=1500 gates=worlds
+/// `pytestmark = pytest.mark.usefixtures("fx1")` (line 2): first and last column of the token and column 0.
+usage_arm!(c01_use_pytestmark_edges, 2, PYTESTMARK_COL, [0, 2, -(PYTESTMARK_COL as i64)]);
+/// @harness id=c01_use_pytestmark_far props=C01 tier=thorough unwind=60 mem=10 cap=1500 gates=worlds
+/// `pytestmark = pytest.mark.usefixtures("fx1")` (line 2): two columns before, two past the end, far beyond the line.
+usage_arm!(c01_use_pytestmark_far, 2, PYTESTMARK_COL, [-2, 4, 150]);
+
+/// @harness id=c01_use_fixture_param props=C01 unwind=60 mem=8 cap=900 gates=worlds
+/// `def g(fx1): return 1` (line 4): fixture parameter: cursor one column before the token, inside it, and one past its end (symbolic selector, 3 call sites).
+usage_arm!(c01_use_fixture_param, 4, 6, [-1, 1, 3]);
+/// @harness id=c01_use_fixture_param_edges props=C01 tier=thorough unwind=60 mem=10 cap=1500 gates=worlds
+/// `def g(fx1): return 1` (line 4): fixture parameter: first and last column of the token and column 0.
+usage_arm!(c01_use_fixture_param_edges, 4, 6, [0, 2, -(6 as i64)]);
+/// @harness id=c01_use_fixture_param_far props=C01 tier=thorough unwind=60 mem=10 cap=1500 gates=worlds
+/// `def g(fx1): return 1` (line 4): fixture parameter: two columns before, two past the end, far beyond the line.
+usage_arm!(c01_use_fixture_param_far, 4, 6, [-2, 4, 150]);
+
+/// @harness id=c01_use_usefixtures props=C01 unwind=60 mem=8 cap=900 gates=worlds
+/// `@pytest.mark.usefixtures("fx1")` (line 6): cursor one column before the token, inside it, and one past its end (symbolic selector, 3 call sites).
+usage_arm!(c01_use_usefixtures, 6, USEFIX_COL, [-1, 1, 3]);
+/// @harness id=c01_use_usefixtures_edges props=C01 tier=thorough unwind=60 mem=10 cap=1500 gates=worlds
+/// `@pytest.mark.usefixtures("fx1")` (line 6): first and last column of the token and column 0.
+usage_arm!(c01_use_usefixtures_edges, 6, USEFIX_COL, [0, 2, -(USEFIX_COL as i64)]);
+/// @harness id=c01_use_usefixtures_far props=C01 tier=thorough unwind=60 mem=10 cap=1500 gates=worlds
+/// `@pytest.mark.usefixtures("fx1")` (line 6): two columns before, two past the end, far beyond the line.
+usage_arm!(c01_use_usefixtures_far, 6, USEFIX_COL, [-2, 4, 150]);
+
+/// @harness id=c01_use_indirect props=C01 unwind=60 mem=8 cap=900 gates=worlds
+/// `@pytest.mark.parametrize("fx1", [1], indirect=True)` (line 7): cursor one column before the token, inside it, and one past its end (symbolic selector, 3 call sites).
+usage_arm!(c01_use_indirect, 7, USEFIX_COL, [-1, 1, 3]);
+/// @harness id=c01_use_indirect_edges props=C01 tier=thorough unwind=60 mem=10 cap=1500 gates=worlds
+/// `@pytest.mark.parametrize("fx1", [1], indirect=True)` (line 7): first and last column of the token and column 0.
+usage_arm!(c01_use_indirect_edges, 7, USEFIX_COL, [0, 2, -(USEFIX_COL as i64)]);
+/// @harness id=c01_use_indirect_far props=C01 tier=thorough unwind=60 mem=10 cap=1500 gates=worlds
+/// `@pytest.mark.parametrize("fx1", [1], indirect=True)` (line 7): two columns before, two past the end, far beyond the line.
+usage_arm!(c01_use_indirect_far, 7, USEFIX_COL, [-2, 4, 150]);
+
+/// @harness id=c01_use_test_param props=C01 unwind=60 mem=8 cap=900 gates=worlds
+/// `def test_x(fx1): pass` (line 8): test parameter: cursor one column before the token, inside it, and one past its end (symbolic selector, 3 call sites).
+usage_arm!(c01_use_test_param, 8, 11, [-1, 1, 3]);
+/// @harness id=c01_use_test_param_edges props=C01 tier=thorough unwind=60 mem=10 cap=1500 gates=worlds
+/// `def test_x(fx1): pass` (line 8): test parameter: first and last column of the token and column 0.
+usage_arm!(c01_use_test_param_edges, 8, 11, [0, 2, -(11 as i64)]);
+/// @harness id=c01_use_test_param_far props=C01 tier=thorough unwind=60 mem=10 cap=1500 gates=worlds
+/// `def test_x(fx1): pass` (line 8): test parameter: two columns before, two past the end, far beyond the line.
+usage_arm!(c01_use_test_param_far, 8, 11, [-2, 4, 150]);
